@@ -1,5 +1,5 @@
 """Per-property metadata; bin/mkmanifest turns this into MANIFEST.json."""
-HOOK_COMMITS = ["a8ce924"]
+HOOK_COMMITS = ["a8ce924", "e061329"]
 
 CHECKS = {
  "C18": dict(
@@ -168,6 +168,29 @@ CHECKS = {
   note="Lines that end inside a string literal are not edited. The quick tier uses deterministic slices (no seeded choice).",
   tech="TLC-enumerated trivia edits applied to TLC-enumerated programs and samples; differential check judged by TLC",
   ref="DESIGN.md 9/C14"),
+ "C16": dict(
+  text="Faithful layer: spec/Imports.tla models the generator's import accumulator as a state machine; TLC checks no-duplicates / "
+       "sorted names / present-iff-registered for every operation sequence of length <= 4 over the 9 support imports (R1) and emits "
+       "each (R2); every sequence is replayed on the REAL Imports object (guarded re-export) and spec/ImportsTrace.tla steps the "
+       "specification through the same operations, comparing the rendered import lines after every step (exact conformance). "
+       "Emitted modules: programs using every construct that needs a support import (spec/MC_C16.tla: alone under the context grid, "
+       "all ordered pairs), further families and samples, annotate off and on; py/pyapi.py reads unbound names and import "
+       "statements off each module (symtable / ast) and TLC (spec/ClosedJudge.tla) requires: nothing unbound beyond what the source "
+       "leaves free, support imports at the top and not duplicated, every support name used is imported.",
+  note="For repository samples every identifier of the source counts as possibly bound by the user's own imports.",
+  tech="TLA+ import state machine with exact replay on the real object (trace validation) + free-name / import analysis of emitted modules judged by TLC",
+  ref="DESIGN.md 9/C16"),
+ "C17": dict(
+  text="spec/MambaAPI.tla computes from a program's abstract syntax the Python API it must expose (function and method names, "
+       "operators as dunders, parameter names / order / defaults / vararg, constructor = class arguments or explicit __init__, "
+       "parents in order); TLC enumerates class shapes (spec/MC_C17.tla) and the function / class programs of other families; both "
+       "annotate modes are transpiled; py/pyapi.py reads the API off the emitted module's AST and positional / keyword probe calls "
+       "built from the Mamba signature are bound against the loaded definitions (inspect.signature.bind); TLC (spec/APIJudge.tla) "
+       "requires SameAPI and successful probes.",
+  note="Member order inside a class is not part of the property; a support base (ABC) may follow the declared parents. Open "
+       "known finding KF-C17-1 (annotate on: own class in a method signature).",
+  tech="TLA+ API function over abstract syntax as oracle; TLC-enumerated class shapes; API read off emitted AST + signature-binding probes, judged by TLC",
+  ref="DESIGN.md 9/C17"),
 }
 
 PENDING_REASON = "check not built yet in this snapshot (work in progress; see DESIGN.md section 13)"
